@@ -2,7 +2,7 @@ from pyvc.contracts import contract
 from pyvc.shapes import *
 from specs.dwarf import StructsT
 
-EntryT = Obj('CIE', offset=Int)
+EntryT = Obj('CIE', offset=Int, augmentation_dict=DictOf(U8), header=Rec(length=Nat, augmentation=Bytes))
 CFIT = Obj('CallFrameInfo', stream=Stream, size=Nat, address=Nat, for_eh_frame=Bool, base_structs=StructsT)
 
 
@@ -75,3 +75,134 @@ class parse_instructions:
         variant="len($B) + 1 - offset")}
     ensures = []
     may_raise = ["ELFParseError", "DWARFError", "KeyError", "OverflowError"]
+
+
+# ---------------------------------------------------------------- .eh_frame pointer encodings, FDE header
+from specs.cfiparse import pe_known, pe_val, pe_end, il_val, il_size, sized_word, fde_leaf
+
+CFI_EXC = ["ELFParseError", "DWARFError", "OverflowError", "AssertionError", "KeyError"]
+
+
+@contract("elftools/dwarf/callframe.py", "CallFrameInfo._eh_encoding_to_field", props=["C06"])
+class eh_encoding_to_field:
+    inline = True
+
+
+@contract("elftools/dwarf/callframe.py", "CallFrameInfo._parse_lsda_pointer", props=["C06"])
+class parse_lsda_pointer:
+    """the LSDA pointer at stream_offset: the value of the basic encoding (low four bits: address-sized word,
+    LEB128, 2/4/8-byte word, unsigned or signed), taken as is (modifier absptr) or relative to the address of the
+    field itself (modifier pcrel: section address + field offset); an omitted pointer, an unknown basic encoding
+    and any other modifier never return"""
+    params = dict(self=CFIT, structs=StructsT, stream_offset=Nat, encoding=U8)
+    modifies = ["self.stream.pos"]
+    returns = Int
+    ensures = ["encoding != 0xff", "pe_known(encoding % 16)", "encoding // 16 == 0 or encoding // 16 == 1",
+               "result == pe_val(self.stream.B, stream_offset, encoding % 16, structs.address_size)"
+               " + ((self.address + stream_offset) if encoding // 16 == 1 else 0)",
+               "self.stream.pos == pe_end(self.stream.B, stream_offset, encoding % 16, structs.address_size)"]
+    may_raise = CFI_EXC
+
+
+FDE_LEAF = "sized_word"       # (documentation) .debug_frame FDE headers are the abstract Dwarf_FDE_header layout (K2)
+P1 = "(offset + il_size(self.stream.B, offset) + (4 if entry_structs.dwarf_format == 32 else 8))"
+ENC = "(final_cie.augmentation_dict['FDE_encoding'] if 'FDE_encoding' in final_cie.augmentation_dict else 0)"
+
+
+@contract("elftools/dwarf/callframe.py", "CallFrameInfo._parse_fde_header", props=["C06"])
+class parse_fde_header:
+    """.eh_frame FDE header: initial length, CIE pointer (format-sized word), then initial location and address range
+    in the pointer encoding recorded by the 'R' augmentation of the designated CIE (absolute pointers when the CIE has
+    none): both use the basic encoding; a pcrel modifier makes the initial location relative to the address of its own
+    field (section address + field offset); the stream is left after the address range.  (.debug_frame: the fixed
+    Dwarf_FDE_header layout, K2.)"""
+    params = dict(self=CFIT, entry_structs=StructsT, offset=Nat)
+    modifies = ["self.stream.pos"]
+    returns = Rec(length=Nat, CIE_pointer=Nat, initial_location=Int, address_range=Int)
+    ensures = ["not self.for_eh_frame or result.length == il_val(self.stream.B, offset)",
+               "not self.for_eh_frame or result.CIE_pointer == sized_word(self.stream.B, offset + il_size(self.stream.B, offset), 4 if entry_structs.dwarf_format == 32 else 8)",
+               "@check @when self.for_eh_frame :: %s != 0xff and pe_known(%s %% 16) and (%s // 16 == 0 or %s // 16 == 1)" % (ENC, ENC, ENC, ENC),
+               "@check @when self.for_eh_frame :: result.initial_location == pe_val(self.stream.B, %s, %s %% 16, entry_structs.address_size)"
+               " + ((self.address + %s) if %s // 16 == 1 else 0)" % (P1, ENC, P1, ENC),
+               "@check @when self.for_eh_frame :: result.address_range == pe_val(self.stream.B, pe_end(self.stream.B, %s, %s %% 16, entry_structs.address_size),"
+               " %s %% 16, entry_structs.address_size)" % (P1, ENC, ENC),
+               "@check @when self.for_eh_frame :: self.stream.pos == pe_end(self.stream.B, pe_end(self.stream.B, %s, %s %% 16, entry_structs.address_size),"
+               " %s %% 16, entry_structs.address_size)" % (P1, ENC, ENC),
+               "@check @when self.for_eh_frame :: final_cie.offset == offset + il_size(self.stream.B, offset) - result.CIE_pointer"
+               " or entry_structs.dwarf_format != (32 if il_size(self.stream.B, offset) == 4 else 64)"]
+    ensures += ["self.for_eh_frame or result.%s == fde_leaf(self.stream.B, offset, '%s')" % (f, f)
+                for f in ('length', 'CIE_pointer', 'initial_location', 'address_range')]
+    may_raise = CFI_EXC
+
+
+# ---------------------------------------------------------------- augmentation data (LSB 10.6.1.1.1)
+from specs.lineprog import U, UE
+
+
+@contract("elftools/dwarf/callframe.py", "CallFrameInfo._read_augmentation_data", props=["C06"])
+class read_augmentation_data:
+    """.eh_frame: a ULEB128 length followed by that many bytes of augmentation data, which are returned (fewer when
+    the section ends first); .debug_frame: nothing is read"""
+    params = dict(self=CFIT, entry_structs=StructsT)
+    modifies = ["self.stream.pos"]
+    returns = Bytes
+    ghost = {"$p": "self.stream.pos", "$B": "self.stream.B"}
+    ensures = ["self.for_eh_frame or (len(result) == 0 and self.stream.pos == $p)",
+               "not self.for_eh_frame or result == $B[UE($B, $p) : UE($B, $p) + U($B, $p)]",
+               "not self.for_eh_frame or self.stream.pos == min(len($B), UE($B, $p) + U($B, $p)) or self.stream.pos == UE($B, $p)"]
+    may_raise = CFI_EXC
+
+AUGS = (b'', b'z', b'zR', b'zL', b'zLR', b'zRL', b'zPR', b'zPLR', b'zRS', b'zSLR', b'zRX', b'zXR', b'armcc+')
+ASZ = "entry_structs.address_size"
+
+
+def aug_clauses(aug):
+    """postconditions for one augmentation string: the data fields follow the ULEB128 length in the order of the letters
+    (L: LSDA pointer encoding byte; R: FDE pointer encoding byte; P: encoding byte + personality routine pointer in that
+    encoding; S: no data); reading stops at the first letter the library does not know"""
+    g = "header.augmentation != %r or " % aug
+    if not aug or aug.startswith(b'armcc'):
+        return [g + "(len(result[0]) == 0 and len(result[1]) == 0 and self.stream.pos == $p)"]
+    out = [g + "result[0] == $B[UE($B, $p) : UE($B, $p) + U($B, $p)]", g + "result[1]['length'] == U($B, $p)"]
+    pos = "UE($B, $p)"
+    keys = {'length'}
+    for ch in aug[1:].decode():
+        if ch == 'L':
+            out.append(g + "result[1]['LSDA_encoding'] == op8($B, %s)" % pos)
+            pos = "(%s + 1)" % pos
+            keys.add('LSDA_encoding')
+        elif ch == 'R':
+            out.append(g + "result[1]['FDE_encoding'] == op8($B, %s)" % pos)
+            pos = "(%s + 1)" % pos
+            keys.add('FDE_encoding')
+        elif ch == 'P':
+            out.append(g + "result[1]['personality'].encoding == op8($B, %s)" % pos)
+            out.append(g + "result[1]['personality'].function == pe_val($B, %s + 1, op8($B, %s) %% 16, %s)" % (pos, pos, ASZ))
+            out.append(g + "pe_known(op8($B, %s) %% 16)" % pos)
+            pos = "pe_end($B, %s + 1, op8($B, %s) %% 16, %s)" % (pos, pos, ASZ)
+            keys.add('personality')
+        elif ch == 'S':
+            continue
+        else:
+            break
+    for k in ('LSDA_encoding', 'FDE_encoding', 'personality'):
+        if k not in keys:
+            out.append(g + "%r not in result[1]" % k)
+    return out
+
+
+@contract("elftools/dwarf/callframe.py", "CallFrameInfo._parse_cie_augmentation", props=["C06"])
+class parse_cie_augmentation:
+    """the augmentation data of an .eh_frame CIE for each augmentation string of the property's quantifier (and strings
+    with an unknown letter, the armcc strings, the empty string): raw bytes and the decoded fields, see aug_clauses"""
+    params = dict(self=CFIT, header=Rec(augmentation=OneOf(*AUGS)), entry_structs=StructsT)
+    requires = ["self.for_eh_frame"]
+    modifies = ["self.stream.pos"]
+    ghost = {"$p": "self.stream.pos", "$B": "self.stream.B"}
+    ensures = [c for a in AUGS for c in aug_clauses(a)]
+    may_raise = CFI_EXC
+
+
+@contract("elftools/common/utils.py", "iterbytes", props=["C06"])
+class iterbytes_c:
+    inline = True
